@@ -59,6 +59,10 @@ class FuncInfo:
         return any(d.endswith("cached_property") for d in self.decorators)
 
     @property
+    def is_async(self) -> bool:
+        return isinstance(self.node, ast.AsyncFunctionDef)
+
+    @property
     def is_static(self) -> bool:
         return "staticmethod" in self.decorators
 
